@@ -233,7 +233,7 @@ func (m *Model) RunLayout(s *Sink, rule string) {
 			if ret, isRet := b.Instrs[len(b.Instrs)-1].(*ssa.Return); isRet {
 				if k, isK := ret.Results[0].(*ssa.Const); isK && k.Value != nil && k.Value.String() == "true" {
 					for _, in := range b.Instrs {
-						if c, isC := in.(*ssa.Call); isC && c.Call.StaticCallee() != nil && canonFnName(c.Call.StaticCallee()) == "newError" {
+						if c, isC := in.(*ssa.Call); isC && c.Call.StaticCallee() != nil && m.recordsParserError(c.Call.StaticCallee()) {
 							okErr = true
 						}
 					}
@@ -961,4 +961,22 @@ func (m *Model) RunSlotNilCase(s *Sink, rule string) {
 		}
 	}
 	s.OK(rule, key, m.Pos(ev.Pos()), "case evaluation of Eval on a named and on the default placeholder with Body == nil, evaluator and scope unknown: the nil object")
+}
+
+// recordsParserError: the parser's error recorder, or a function of the parser whose entry block calls it (a wrapper
+// that takes the offending token: `errorAt(tok, msg, args...)`).
+func (m *Model) recordsParserError(fn *ssa.Function) bool {
+	ne := m.parserNewError()
+	if fn == ne || canonFnName(fn) == "newError" {
+		return true
+	}
+	if ne == nil || fn.Blocks == nil || shortPkg(fnPkgPath(fn)) != "parser" {
+		return false
+	}
+	for _, in := range fn.Blocks[0].Instrs {
+		if c, ok := in.(*ssa.Call); ok && c.Call.StaticCallee() == ne {
+			return true
+		}
+	}
+	return false
 }
